@@ -6,6 +6,9 @@
 //	c27 name <ver> <ServerName form> <certificate kind> <skipVerify> <i>                 (names.go)
 //	c27 res <ver> <server cert> <first client cfg> <second client cfg> <cache> <i>       (resume.go: two connections, one session cache)
 //	c27 sres <ver> <client cert> <first server cfg> <second server cfg> <i>              (resume.go: two connections, one ticket key)
+//	c27 hk <ver> <suite> <key> <kex> <server scenario> <skipVerify> <ClientAuthType> <client scenario> <hooks> <ClientCAs> <i>
+//	                                                                                     (hooks.go: the hs scenarios with Config hooks installed)
+//	c27 res … <cache> <hooks> <i>   /   c27 sres … <second server cfg> <hooks> <i>       (the two-connection scenarios with permissive hooks)
 //
 // T2: the outcome (client completes / server completes) is compared with the decision computed by the Lean model of
 // the acceptance predicates (ZV.Model.C27).  T3 states the property directly and independently of the model: with
@@ -19,6 +22,7 @@ import (
 	"strconv"
 	"strings"
 	"sync"
+	"sync/atomic"
 	"time"
 
 	"github.com/zmap/zcrypto/tls"
@@ -116,7 +120,11 @@ func otherKey(key string, forClient bool) crypto.PrivateKey {
 	}
 }
 
-func runScen(s scen) *tlsrig.Result {
+func runScen(s scen) *tlsrig.Result { return runScenH(s, hookSet{}, "R", nil) }
+
+// runScenH: the scenario with the Config hooks of h installed (hooks.go) and ClientCAs = the roots (R), nil (N) or an
+// empty pool (E); the hook invocations are counted in runs.
+func runScenH(s scen, h hookSet, cas string, runs *hookRuns) *tlsrig.Result {
 	p := tlsrig.GetPKI()
 	v := verNum[s.ver]
 	future := func() time.Time { return time.Now().Add(60 * 24 * time.Hour) }
@@ -182,10 +190,27 @@ func runScen(s scen) *tlsrig.Result {
 		cc = &c
 		opts.WrapClient = func(c net.Conn) net.Conn { return &filterConn{Conn: c, target: 15} }
 	}
-	if cc != nil {
-		// always offer the certificate (the default selection would withhold one the server's CA list does not cover)
-		ccfg.GetClientCertificate = func(*tls.CertificateRequestInfo) (*tls.Certificate, error) { return cc, nil }
+	switch cas {
+	case "N":
+		scfg.ClientCAs = nil
+	case "E":
+		scfg.ClientCAs = x509.NewCertPool()
 	}
+	if cc != nil {
+		if h.static {
+			// the default selection (withholds a certificate the server's CA list does not cover)
+			ccfg.Certificates = []tls.Certificate{*cc}
+		} else {
+			// always offer the certificate
+			ccfg.GetClientCertificate = func(*tls.CertificateRequestInfo) (*tls.Certificate, error) {
+				if runs != nil {
+					atomic.AddInt32(&runs.getClientCert, 1)
+				}
+				return cc, nil
+			}
+		}
+	}
+	ccfg, scfg = installHooks(ccfg, scfg, h, runs)
 	return tlsrig.Handshake(ccfg, scfg, opts)
 }
 
@@ -206,6 +231,8 @@ func exec(line string) zv.Out {
 			return execRes(f)
 		case "sres":
 			return execSRes(f)
+		case "hk":
+			return execHook(f)
 		}
 	}
 	if len(f) != 11 || f[1] != "hs" {
@@ -292,6 +319,7 @@ func gen(g *zv.Gen) {
 	// ServerName spellings x certificates that do / do not list the name; two-connection sequences (resumption)
 	genNames(g)
 	genResume(g)
+	genHooks(g, combos)
 	reps := g.N(1, 6)
 	for rep := 0; rep < reps; rep++ {
 		for ci, c := range combos {
@@ -335,5 +363,5 @@ func gen(g *zv.Gen) {
 
 func init() {
 	zv.Register(&zv.Prop{ID: "C27", Topic: "c27", Gen: gen, Exec: exec, Timeout: 20 * time.Second,
-		Rule: "one real zcrypto client/server handshake per scenario: (TLS 1.0-1.3 x RSA / ECDHE-RSA / ECDHE-ECDSA / DHE / TLS 1.3 x rsa, ecdsa P-256/P-384, ed25519 keys) x server scenario (trusted, untrusted root, expired via Config.Time or an expired leaf, wrong name, wrong private key, corrupted ServerKeyExchange signature) x InsecureSkipVerify x ClientAuthType 0..4 x client scenario (none, trusted, untrusted, expired, wrong private key, corrupted CertificateVerify); a case is one distinct scenario line; name: Config.ServerName written in 20 forms (DNS name, upper case, one / two trailing dots, sub-domain, unrelated name, IPv4, bracketed / dotted / v4-mapped IPv4, IPv6 short / long / bracketed, link-local with and without zone, bracketed zone, unlisted addresses, empty) x 5 certificates chaining to the configured roots that list the DNS name / the addresses / both / neither / a wildcard, TLS 1.2 and 1.3 (thorough: 1.0-1.3), verification on (and off for one certificate); T3 from the actual strings and certificate contents: completes only if listed under the most liberal reading, plain spellings that are listed must be accepted; res: two client connections through ONE ClientSessionCache (keyed, or one slot ignoring the key) to one server (ticket / PSK), the first made by a configuration that is InsecureSkipVerify with the right / other / no roots, or verifying with other roots / both roots / another ServerName / a later clock, the second by a verifying configuration (right roots, other roots, clock past a short-lived leaf, other name) or a non-verifying one, x server certificate (trusted, other root, other name, both names, short-lived), TLS 1.0-1.3: core product always, the rest sampled (thorough: full product); T3: the second connection completes only if the Go standard library verifies the server's actual chain for THAT configuration's roots, clock and name, and is not refused if it does; sres: two connections to servers sharing a ticket key whose ClientAuthType / ClientCAs / clock differ (first non-verifying 0-2, second verifying 3-4 as core; all 15x15 pairs sampled) x client certificate (none, trusted, other root, short-lived): the second server completes only with a certificate that verifies for ITS configuration"})
+		Rule: "one real zcrypto client/server handshake per scenario: (TLS 1.0-1.3 x RSA / ECDHE-RSA / ECDHE-ECDSA / DHE / TLS 1.3 x rsa, ecdsa P-256/P-384, ed25519 keys) x server scenario (trusted, untrusted root, expired via Config.Time or an expired leaf, wrong name, wrong private key, corrupted ServerKeyExchange signature) x InsecureSkipVerify x ClientAuthType 0..4 x client scenario (none, trusted, untrusted, expired, wrong private key, corrupted CertificateVerify); a case is one distinct scenario line; name: Config.ServerName written in 20 forms (DNS name, upper case, one / two trailing dots, sub-domain, unrelated name, IPv4, bracketed / dotted / v4-mapped IPv4, IPv6 short / long / bracketed, link-local with and without zone, bracketed zone, unlisted addresses, empty) x 5 certificates chaining to the configured roots that list the DNS name / the addresses / both / neither / a wildcard, TLS 1.2 and 1.3 (thorough: 1.0-1.3), verification on (and off for one certificate); T3 from the actual strings and certificate contents: completes only if listed under the most liberal reading, plain spellings that are listed must be accepted; res: two client connections through ONE ClientSessionCache (keyed, or one slot ignoring the key) to one server (ticket / PSK), the first made by a configuration that is InsecureSkipVerify with the right / other / no roots, or verifying with other roots / both roots / another ServerName / a later clock, the second by a verifying configuration (right roots, other roots, clock past a short-lived leaf, other name) or a non-verifying one, x server certificate (trusted, other root, other name, both names, short-lived), TLS 1.0-1.3: core product always, the rest sampled (thorough: full product); T3: the second connection completes only if the Go standard library verifies the server's actual chain for THAT configuration's roots, clock and name, and is not refused if it does; sres: two connections to servers sharing a ticket key whose ClientAuthType / ClientCAs / clock differ (first non-verifying 0-2, second verifying 3-4 as core; all 15x15 pairs sampled) x client certificate (none, trusted, other root, short-lived): the second server completes only with a certificate that verifies for ITS configuration; hk: the hs matrix again with the verification-related Config hooks installed - client VerifyPeerCertificate / VerifyConnection (returning nil; returning an error), client certificate via GetClientCertificate or via Config.Certificates; server VerifyPeerCertificate / VerifyConnection (nil; error), GetCertificate returning the configured certificate, GetConfigForClient returning the real configuration from behind a lax shell (NoClientCert, no ClientCAs) or returning nil; ClientCAs = roots / nil / empty pool - as: every server scenario x InsecureSkipVerify x {both client callbacks + one more hook set in rotation (thorough: all 10)}, every ClientAuthType x client scenario x {both server callbacks + one more of 13 hook sets}, ClientAuthType 1-4 x {none, trusted, untrusted, wrong key} x ClientCAs nil / empty, rejecting callbacks on either side, both sides bad with everything installed; T2: outcome = the model's decision, in which permissive hooks have no influence (= the outcome without hooks), and the client callbacks run exactly when normal verification did not fail; T3: all hs sentences with hooks installed, no callback invoked for a peer failing normal verification or without verified chains while verifying, each installed callback consulted exactly once by a completed handshake, a callback error aborts; res / sres lines with a trailing hooks field: the core two-connection scenarios (and a sample of the rest) with permissive hooks on both sides, same outcome and DidResume demanded"})
 }
